@@ -50,52 +50,69 @@ WEEK_OFF = {"C": 1356}
 # independent writer
 
 
-def d19(rng, q: Fraction | None = None, style=None):
-    """a 19-column real: (text, exact Fraction). styles as found in the wild"""
+def num19(rng, q: Fraction | None = None, style=None):
+    """an abstract 19-column real (the `Num19` of lean/Midgard/Spec/RinexNavFile.lean): None = blank, else
+    {x: exponent letter, lead: integer digit printed, neg, m: mantissa in units of 1e-12, e: exponent}"""
+    if q is None and rng.random() < 0.07:
+        return None  # blank means zero
+    style = style or rng.choice(["0.dD", ".dE", "d.de", "0.dE", "d.dE"])
+    x = "E" if style.endswith("E") else ("D" if style.endswith("D") else "e")
     if q is None:
-        if rng.random() < 0.07:
-            return " " * 19, Fraction(0)  # blank means zero
         mant = rng.randint(0, 10**12 - 1)
         e = rng.randint(-12, 9)
         neg = rng.random() < 0.45
-    style = style or rng.choice(["0.dD", ".dE", "d.de", "0.dE", "d.dE"])
-    if q is not None:
-        # exact integer-valued or given number: write as d.ddd…E+xx with 12 decimals
-        neg = q < 0
-        a = abs(q)
-        e = 0
-        if a != 0:
-            while a >= 10:
-                a /= 10
-                e += 1
-            while a < 1:
-                a *= 10
-                e -= 1
-        mant12 = int(a * 10**12)  # truncation: callers only pass values with <= 13 significant digits
-        digits = f"{mant12:013d}"
-        ch = "E" if style.endswith("E") else ("D" if style.endswith("D") else "e")
-        if style.startswith("d."):
-            t = f"{'-' if neg else ' '}{digits[0]}.{digits[1:]}{ch}{'+' if e >= 0 else '-'}{abs(e):02d}"
-        elif style.startswith("0."):
-            e1 = e + 1 if a != 0 else 0
-            t = f"{'-' if neg else ' '}0.{digits[:12]}{ch}{'+' if e1 >= 0 else '-'}{abs(e1):02d}"
-        else:
-            e1 = e + 1 if a != 0 else 0
-            t = f" {'-' if neg else ' '}.{digits[:12]}{ch}{'+' if e1 >= 0 else '-'}{abs(e1):02d}"
-        assert len(t) == 19, (t, len(t))
-        val = Fraction(t.strip().replace("D", "e").replace("E", "e"))
-        return t, val
-    ch = "E" if style.endswith("E") else ("D" if style.endswith("D") else "e")
-    es = f"{'+' if e >= 0 else '-'}{abs(e):02d}"
-    m = f"{mant:012d}"
-    if style.startswith("0."):
-        t = f"{'-' if neg else ' '}0.{m}{ch}{es}"
-    elif style.startswith("."):
-        t = f" {'-' if neg else ' '}.{m}{ch}{es}"
+        if style.startswith("0."):
+            return {"x": x, "lead": True, "neg": neg, "m": mant, "e": e}
+        if style.startswith("."):
+            return {"x": x, "lead": False, "neg": neg, "m": mant, "e": e}
+        return {"x": x, "lead": True, "neg": neg, "m": rng.randint(1, 9) * 10**12 + mant, "e": e}
+    # a given number (callers only pass values with <= 12 significant digits): d.ddd…X+ee or 0.ddd…X+ee
+    neg = q < 0
+    a = abs(q)
+    e = 0
+    if a != 0:
+        while a >= 10:
+            a /= 10
+            e += 1
+        while a < 1:
+            a *= 10
+            e -= 1
+    mant13 = int(a * 10**12)
+    assert Fraction(mant13, 10**12) == a, q
+    if style.startswith("d."):
+        n = {"x": x, "lead": True, "neg": neg, "m": mant13, "e": e}
     else:
-        t = f"{'-' if neg else ' '}{rng.randint(1, 9)}.{m}{ch}{es}"
-    assert len(t) == 19, t
-    return t, Fraction(t.strip().replace("D", "e").replace("E", "e"))
+        assert mant13 % 10 == 0, q
+        n = {"x": x, "lead": style.startswith("0."), "neg": neg, "m": mant13 // 10, "e": e + 1 if a != 0 else 0}
+    assert num_val(n) == q, (q, n)
+    return n
+
+
+def num_val(n) -> Fraction:
+    if n is None:
+        return Fraction(0)
+    v = Fraction(n["m"], 10**12) * Fraction(10) ** n["e"]
+    return -v if n["neg"] else v
+
+
+def num_text(n) -> str:
+    """the independent writer's D19.12 (and its spellings), right-justified in 19 columns"""
+    if n is None:
+        return " " * 19
+    m = n["m"]
+    t = f"{'-' if n['neg'] else ''}{m // 10**12 if n['lead'] else ''}.{m % 10**12:012d}{n['x']}{'+' if n['e'] >= 0 else '-'}{abs(n['e']):02d}"
+    assert len(t) <= 19, t
+    return t.rjust(19)
+
+
+def num_wire(n) -> str:
+    return "_" if n is None else f"{n['x']}:{int(n['lead'])}:{int(n['neg'])}:{n['m']}:{n['e']}"
+
+
+def d19(rng, q: Fraction | None = None, style=None):
+    """a 19-column real: (text, exact Fraction)"""
+    n = num19(rng, q, style)
+    return num_text(n), num_val(n)
 
 
 def gen_record(rng, system, prn, toc_gps: datetime, both_dirs=False):
@@ -126,116 +143,144 @@ def gen_record(rng, system, prn, toc_gps: datetime, both_dirs=False):
     return rec
 
 
-def render_record3(rng, rec, style=None):
-    """RINEX 3.04: A1,I2.2,1X,I4,5(1X,I2.2),3D19.12 / 4X,4D19.12 — returns (lines, expected dict)"""
+def abstract_record3(rng, rec, style=None):
+    """the record as an item of the abstract file + the expected values by general slot name"""
     t = rec["toc_sys"]
     exp = {}
-    cells = []
+    clock = []
     for name in ("sat_clock_bias", "sat_clock_drift", "sat_clock_drift_rate"):
-        txt, v = d19(rng, style=style)
-        cells.append(txt)
-        exp[name] = v
-    prn_txt = f"{rec['prn']:02d}" if rng.random() < 0.8 else f"{rec['prn']:2d}"
-    lines = [f"{rec['system']}{prn_txt} {t.year:4d} {t.month:02d} {t.day:02d} {t.hour:02d} {t.minute:02d} {t.second:02d}" + "".join(cells)]
+        n = num19(rng, style=style)
+        clock.append(n)
+        exp[name] = num_val(n)
+    rows = []
     for row in ORBIT:
         cells = []
         for name in row:
             if name is None:
-                cells.append(rng.choice([" " * 19, " 0.000000000000E+00", ""]) if True else "")
                 continue
             if name == "toe":
-                txt, v = d19(rng, Fraction(rec["toe_print"]), style)
+                n = num19(rng, Fraction(rec["toe_print"]), style)
             elif name == "gnss_week":
-                txt, v = d19(rng, Fraction(rec["week_print"]), style)
+                n = num19(rng, Fraction(rec["week_print"]), style)
             elif name == "transmission_time":
-                txt, v = d19(rng, Fraction(rec["ttx_print"]), style)
+                n = num19(rng, Fraction(rec["ttx_print"]), style)
             elif name == "iode":
-                txt, v = d19(rng, Fraction(rng.randint(0, 255)), style)
+                n = num19(rng, Fraction(rng.randint(0, 255)), style)
             elif name in ("sv_health", "gnss_data_info"):
-                txt, v = d19(rng, Fraction(rng.choice([0, 1, 63, 258, 513, 516, 517, 455])), style)
+                n = num19(rng, Fraction(rng.choice([0, 1, 63, 258, 513, 516, 517, 455])), style)
             else:
-                txt, v = d19(rng, style=style)
-            cells.append(txt)
-            exp[name] = v
-        # trailing blank cells may be cut off the line
-        line = "    " + "".join(c.ljust(19) if c else "" for c in cells)
-        lines.append(line.rstrip() if rng.random() < 0.6 else line)
-    return lines, exp
+                n = num19(rng, style=style)
+            cells.append(n)
+            exp[name] = num_val(n)
+        rows.append({"cells": cells, "cut": rng.random() < 0.6})
+    # the two spare columns of the last line: absent, blank or zero
+    rows[-1]["cells"] += [rng.choice([None, {"x": "E", "lead": True, "neg": False, "m": 0, "e": 0}]) for _ in range(rng.choice([0, 0, 1, 2]))]
+    item = {"kind": "N", "sys": rec["system"], "prn": rec["prn"], "zero": rng.random() < 0.8,
+            "date": [t.year, t.month, t.day, t.hour, t.minute, t.second], "clock": clock, "rows": rows}
+    return item, exp
 
 
-def render_glo_sbas(rng, system, prn, t):
-    """a GLONASS / SBAS record: epoch line + 3 orbit lines (RINEX 3.04 tables A10/A16)"""
-    lines = [f"{system}{prn:02d} {t.year:4d} {t.month:02d} {t.day:02d} {t.hour:02d} {t.minute:02d} {t.second:02d}"
-             + "".join(d19(rng)[0] for _ in range(3))]
-    for _ in range(3):
-        lines.append("    " + "".join(d19(rng)[0] for _ in range(4)))
+def abstract_glo_sbas(rng, system, prn, t):
+    """a GLONASS / SBAS record: epoch line + 3 orbit lines (RINEX 3.04 tables A10/A16), 4 for GLONASS in 3.05,
+    and other counts — the parser must skip it whatever its length"""
+    nrows = rng.choice([3, 3, 3, 4, 4, 1, 2, 5])
+    rows = [{"cells": [num19(rng) for _ in range(4 if rng.random() < 0.9 else rng.randint(1, 3))], "cut": rng.random() < 0.5} for _ in range(nrows)]
+    return {"kind": "S", "sys": system, "prn": prn, "date": [t.year, t.month, t.day, t.hour, t.minute, t.second],
+            "clock": [num19(rng) for _ in range(3)], "rows": rows}
+
+
+def item_lines3(it):
+    """RINEX 3.04: A1,I2.2,1X,I4,5(1X,I2.2),3D19.12 / 4X,4D19.12 (independent writer)"""
+    y, mo, d, h, mi, sec = it["date"]
+    prn_txt = f"{it['prn']:02d}" if it.get("zero", True) else f"{it['prn']:2d}"
+    lines = [f"{it['sys']}{prn_txt} {y:04d} {mo:02d} {d:02d} {h:02d} {mi:02d} {sec:02d}" + "".join(num_text(n) for n in it["clock"])]
+    for row in it["rows"]:
+        line = "    " + "".join(num_text(n) for n in row["cells"])
+        lines.append(line.rstrip() if row["cut"] else line)
     return lines
 
 
+def item_wire(it):
+    o = [it["kind"], hexs(it["sys"]), str(it["prn"])]
+    if it["kind"] == "N":
+        o.append("1" if it["zero"] else "0")
+    o += [str(v) for v in it["date"]] + [num_wire(n) for n in it["clock"]]
+    if it["kind"] == "N":
+        for row in it["rows"][:6]:
+            o += [num_wire(n) for n in row["cells"]] + ["1" if row["cut"] else "0"]
+        last = it["rows"][6]
+        o += [num_wire(n) for n in last["cells"][:2]] + [str(len(last["cells"]) - 2)] + [num_wire(n) for n in last["cells"][2:]] + ["1" if last["cut"] else "0"]
+    else:
+        o.append(str(len(it["rows"])))
+        for row in it["rows"]:
+            o += [str(len(row["cells"]))] + [num_wire(n) for n in row["cells"]] + ["1" if row["cut"] else "0"]
+    return o
+
+
 def header3(sat_sys, rng):
-    names = {"G": "G: GPS", "E": "E: GALILEO", "C": "C: BDS", "J": "J: QZSS", "I": "I: IRNSS", "M": "M: MIXED"}
-    out = [f"{'     3.04':<20}{'N: GNSS NAV DATA':<20}{names[sat_sys]:<20}RINEX VERSION / TYPE",
-           f"{'verif-writer':<20}{'C12':<20}{'20260929 000000 UTC':<20}PGM / RUN BY / DATE"]
+    """(version, type, system letter, rest of the system text, further header lines as (content, label))"""
+    names = {"G": ": GPS", "E": ": GALILEO", "C": ": BDS", "J": ": QZSS", "I": ": IRNSS", "M": ": MIXED"}
+    out = [("verif-writer".ljust(20) + "C12".ljust(20) + "20260929 000000 UTC", "PGM / RUN BY / DATE")]
     if rng.random() < 0.5:
-        out.append(f"{'a comment':<60}COMMENT")
+        out.append(("a comment", "COMMENT"))
     if rng.random() < 0.5:
-        out.append(f"{'GPSA   4.6566D-09  1.4901D-08 -5.9605D-08 -1.1921D-07':<60}IONOSPHERIC CORR")
+        out.append(("GPSA   4.6566D-09  1.4901D-08 -5.9605D-08 -1.1921D-07", "IONOSPHERIC CORR"))
     if rng.random() < 0.5:
-        out.append(f"{'GPUT -9.3132257462E-10-1.776356839E-15 405504 2071':<60}TIME SYSTEM CORR")
+        out.append(("GPUT -9.3132257462E-10-1.776356839E-15 405504 2071", "TIME SYSTEM CORR"))
     if rng.random() < 0.5:
-        out.append(f"{'    18    18  1929     7':<60}LEAP SECONDS")
-    out.append(f"{'':<60}END OF HEADER")
-    return out
+        out.append(("    18    18  1929     7", "LEAP SECONDS"))
+    return {"version": "     3.04", "ftype": "N: GNSS NAV DATA", "sys": sat_sys, "systext": names[sat_sys], "hlines": out}
 
 
-def render_record2(rng, rec, style=None):
-    """RINEX 2.11 (table A4): I2,1X,I2.2,1X,I2,1X,I2,1X,I2,1X,I2,F5.1,3D19.12 / 3X,4D19.12"""
-    t = rec["toc_sys"]
-    exp = {}
-    cells = []
-    for name in ("sat_clock_bias", "sat_clock_drift", "sat_clock_drift_rate"):
-        txt, v = d19(rng, style=style)
-        cells.append(txt)
-        exp[name] = v
-    lines = [f"{rec['prn']:2d} {t.year % 100:02d} {t.month:2d} {t.day:2d} {t.hour:2d} {t.minute:2d}{t.second:5.1f}" + "".join(cells)]
-    for row in ORBIT:
-        cells = []
-        for name in row:
-            if name is None:
-                cells.append(" " * 19)
-                continue
-            if name == "toe":
-                txt, v = d19(rng, Fraction(rec["toe_print"]), style)
-            elif name == "gnss_week":
-                txt, v = d19(rng, Fraction(rec["week_print"]), style)
-            elif name == "transmission_time":
-                txt, v = d19(rng, Fraction(rec["ttx_print"]), style)
-            elif name == "iode":
-                txt, v = d19(rng, Fraction(rng.randint(0, 255)), style)
-            elif name in ("sv_health", "gnss_data_info"):
-                txt, v = d19(rng, Fraction(rng.choice([0, 1, 63, 258, 513, 516, 517])), style)
-            else:
-                txt, v = d19(rng, style=style)
-            cells.append(txt)
-            exp[name] = v
-        line = "   " + "".join(cells)
-        lines.append(line.rstrip() if rng.random() < 0.6 else line)
-    return lines, exp
+def py_render3(F):
+    lines = [f"{F['version']:<20}{F['ftype']:<20}{F['sys']}{F['systext']:<19}RINEX VERSION / TYPE"]
+    lines += [f"{c:<60}{l}" for c, l in F["hlines"]]
+    lines.append(f"{'':<60}END OF HEADER")
+    for it in F["items"]:
+        lines += item_lines3(it)
+    return "\n".join(lines) + "\n"
+
+
+def wire3(F):
+    o = [hexs(F["version"]), hexs(F["ftype"]), hexs(F["sys"]), hexs(F["systext"]), str(len(F["hlines"]))]
+    for c, l in F["hlines"]:
+        o += [hexs(c), hexs(l)]
+    o.append(str(len(F["items"])))
+    for it in F["items"]:
+        o += item_wire(it)
+    return " ".join(o)
+
+
+def item_lines2(it):
+    """RINEX 2.11 (table A4): I2,1X,I2.2,1X,I2,1X,I2,1X,I2,1X,I2,F5.1,3D19.12 / 3X,4D19.12 (independent writer)"""
+    y, mo, d, h, mi, sec = it["date"]
+    lines = [f"{it['prn']:2d} {y % 100:02d} {mo:2d} {d:2d} {h:2d} {mi:2d}{sec:5.1f}" + "".join(num_text(n) for n in it["clock"])]
+    for row in it["rows"]:
+        line = "   " + "".join(num_text(n) for n in row["cells"])
+        lines.append(line.rstrip() if row["cut"] else line)
+    return lines
 
 
 def header2(version, rng):
     v = {"2.11": "     2.11", "2.10": "     2.10", "2": "     2", "2.12": "     2.12"}[version]
-    out = [f"{v:<20}{'N: GPS NAV DATA':<40}RINEX VERSION / TYPE",
-           f"{'verif-writer':<20}{'C12':<20}{'29-SEP-26 00:00':<20}PGM / RUN BY / DATE"]
+    out = [("verif-writer".ljust(20) + "C12".ljust(20) + "29-SEP-26 00:00", "PGM / RUN BY / DATE")]
     if rng.random() < 0.5:
-        out.append(f"{'a comment':<60}COMMENT")
+        out.append(("a comment", "COMMENT"))
     if version != "2.12" and rng.random() < 0.5:
-        out.append(f"{'    0.1583D-07  0.0000D+00 -0.1192D-06  0.0000D+00':<60}ION ALPHA")
-        out.append(f"{'    0.1126D+06 -0.1638D+05 -0.2621D+06  0.6554D+05':<60}ION BETA")
+        out.append(("    0.1583D-07  0.0000D+00 -0.1192D-06  0.0000D+00", "ION ALPHA"))
+        out.append(("    0.1126D+06 -0.1638D+05 -0.2621D+06  0.6554D+05", "ION BETA"))
     if rng.random() < 0.5:
-        out.append(f"{'    18':<60}LEAP SECONDS")
-    out.append(f"{'':<60}END OF HEADER")
-    return out
+        out.append(("    18", "LEAP SECONDS"))
+    return {"version": v, "ftype": "N: GPS NAV DATA", "sys": "G", "systext": "", "hlines": out}
+
+
+def py_render2(F):
+    lines = [f"{F['version']:<20}{F['ftype']:<40}RINEX VERSION / TYPE"]
+    lines += [f"{c:<60}{l}" for c, l in F["hlines"]]
+    lines.append(f"{'':<60}END OF HEADER")
+    for it in F["items"]:
+        lines += item_lines2(it)
+    return "\n".join(lines) + "\n"
 
 
 def gen_epoch(rng, near_week_boundary, system="G"):
@@ -254,19 +299,34 @@ def gen_file3(rng, quick):
     n = rng.randint(1, 8 if quick else 40)
     style = rng.choice([None, None, "0.dD", ".dE", "d.de"])
     near = rng.random() < 0.5
-    recs, lines = [], header3(kind, rng)
-    for _ in range(n):
+    F = header3(kind, rng)
+    recs, items = [], []
+    # merged broadcast files repeat the same few printed epochs for satellites of all constellations
+    shared = [gen_epoch(rng, near, "C") for _ in range(rng.randint(1, 2))] if kind == "M" and rng.random() < 0.4 else None
+    skip_first = kind == "M" and rng.random() < 0.2
+    if skip_first:
+        items.append(abstract_glo_sbas(rng, rng.choice("RS"), rng.randint(1, 24), gen_epoch(rng, False)))
+    for k in range(n):
         system = kind if kind != "M" else rng.choice("GECJI")
-        if kind == "M" and rng.random() < 0.25:
-            lines += render_glo_sbas(rng, rng.choice("RS"), rng.randint(1, 24), gen_epoch(rng, False))
-        rec = gen_record(rng, system, rng.randint(1, 36), gen_epoch(rng, near, system))
-        ls, exp = render_record3(rng, rec, style)
+        if kind == "M" and k > 0 and rng.random() < 0.25:
+            for _ in range(rng.choice([1, 1, 2])):
+                items.append(abstract_glo_sbas(rng, rng.choice("RS"), rng.randint(1, 24), gen_epoch(rng, False)))
+        if shared:
+            printed = rng.choice(shared)                                     # the epoch as printed, in system time
+            toc = printed + timedelta(seconds=SEC_OFF.get(system, 0))        # the same instant on the GPS scale
+        else:
+            toc = gen_epoch(rng, near, system)
+        rec = gen_record(rng, system, rng.randint(1, 36), toc)
+        it, exp = abstract_record3(rng, rec, style)
         rec["exp"] = exp
         recs.append(rec)
-        lines += ls
-    if kind == "M" and rng.random() < 0.3:
-        lines += render_glo_sbas(rng, "R", 7, gen_epoch(rng, False))
-    return {"version": "3", "sat_sys": kind, "text": "\n".join(lines) + "\n", "recs": recs, "ext": ".rnx"}
+        items.append(it)
+    skip_last = kind == "M" and rng.random() < 0.3
+    if skip_last:
+        items.append(abstract_glo_sbas(rng, "R", 7, gen_epoch(rng, False)))
+    F["items"] = items
+    return {"version": "3", "sat_sys": kind, "model": F, "text": py_render3(F), "recs": recs, "ext": ".rnx",
+            "skip_first": skip_first, "skip_last": skip_last, "shared": bool(shared)}
 
 
 def gen_file2(rng, quick, parser):
@@ -275,15 +335,24 @@ def gen_file2(rng, quick, parser):
     style = rng.choice([None, "0.dD", "0.dD", "d.de"])
     near = rng.random() < 0.5
     version = "2.12" if parser == "rinex212_nav" else rng.choice(["2.11", "2.10", "2"])
-    recs, lines = [], header2(version, rng)
+    F = header2(version, rng)
+    recs, items = [], []
     for _ in range(n):
-        rec = gen_record(rng, system, rng.randint(1, 32), gen_epoch(rng, near, system))
-        ls, exp = render_record2(rng, rec, style)
+        toc = gen_epoch(rng, near, system)
+        if rng.random() < 0.15:                       # the two-digit year pivot: 1980..1999 / 2000..
+            toc = toc.replace(year=rng.choice([1980, 1989, 1999, 2000, 2001, 2035]), month=max(toc.month, 2), day=min(toc.day, 28))
+        rec = gen_record(rng, system, rng.randint(1, 32), toc)
+        it, exp = abstract_record3(rng, rec, style)
+        it["sys"] = "G"                               # no system letter is printed in RINEX 2 (the file name decides)
         rec["exp"] = exp
         recs.append(rec)
-        lines += ls
-    return {"version": version, "sat_sys": system, "text": "\n".join(lines) + "\n", "recs": recs,
-            "ext": ".19n" if system == "G" else ".19l"}
+        items.append(it)
+    F["items"] = items
+    out = {"version": version, "sat_sys": system, "text": py_render2(F), "recs": recs,
+           "ext": ".19n" if system == "G" else ".19l"}
+    if system == "G":
+        out["model2"] = F
+    return out
 
 
 # ------------------------------------------------------------------------------------------
@@ -460,8 +529,69 @@ def one_file(ctx, impl, drv, f, parser):
     ctx.count(f"sat_sys:{f['sat_sys']}")
     for r in f["recs"]:
         ctx.count(f"sys:{r['system']}")
+        if (r["toc_gps"] - GPS0).days // 7 != (r["toe_gps"] - GPS0).days // 7 or (r["toc_gps"] - GPS0).days // 7 != (r["ttx_gps"] - GPS0).days // 7:
+            ctx.count("records whose toe / transmission time lies in another week than the epoch")
+    a = None
+    if "model" in f:
+        F = f["model"]
+        skips = [it for it in F["items"] if it["kind"] == "S"]
+        for it in skips:
+            ctx.count(f"skipped record {it['sys']} with {len(it['rows'])} orbit lines")
+        if f["skip_first"]:
+            ctx.count("files starting with a skipped record")
+        if f["skip_last"]:
+            ctx.count("files ending with a skipped record")
+        kinds = [it["kind"] for it in F["items"]]
+        if any(kinds[i] == "N" and kinds[i + 1] == "S" and "N" in kinds[i + 2:] for i in range(len(kinds) - 1)):
+            ctx.count("files with skipped records between supported ones")
+        if any(kinds[i] == "S" and kinds[i + 1] == "S" for i in range(len(kinds) - 1)):
+            ctx.count("files with two skipped records in a row")
+        if f["shared"]:
+            seen = {}
+            for r in f["recs"]:
+                key = r["toc_sys"]
+                for other in seen.get(key, []):
+                    if (other == "C") != (r["system"] == "C"):
+                        ctx.count("shared printed epoch: BeiDou record first" if other == "C" else "shared printed epoch: BeiDou record later")
+                        break
+                seen.setdefault(key, []).append(r["system"])
+        ans = drv.ask1("c12 model3 " + wire3(F))
+        if ans == "bad-op":
+            ctx.disagree("rinex3 abstract file not accepted by the driver", case, ans, "")
+            return
+        m = json.loads(ans)
+        if not m["wf"]:
+            ctx.disagree("rinex3 generated file does not satisfy NavFile.wf (generator outside the theorem's hypotheses)", case, "wf=false", "")
+        elif not m["thm"]:
+            ctx.disagree("rinex3 file_records_v3 instance: compiled accumV3 (render3 F) differs from expectedState", case, "thm=false", "")
+        lean_text = common.unhex(m["text"])
+        if lean_text != f["text"]:
+            la, lb = lean_text.split("\n"), f["text"].split("\n")
+            i = next((k for k, (x, y) in enumerate(zip(la, lb)) if x != y), -1)
+            ctx.disagree("rinex3 spec writer (Lean render3) vs independent writer (Python)", case, la[i] if i >= 0 else f"{len(la)} lines", lb[i] if i >= 0 else f"{len(lb)} lines")
+        a = "RAISES" if m["cols"] == "RAISES" else json.dumps(m["cols"])
+    if "model2" in f:
+        F = f["model2"]
+        for it in F["items"]:
+            ctx.count(f"rinex2 record year {'19yy' if it['date'][0] < 2000 else '20yy'}")
+        ans = drv.ask1(f"c12 model2 {parser} " + wire3(F))
+        if ans == "bad-op":
+            ctx.disagree("rinex2 abstract file not accepted by the driver", case, ans, "")
+            return
+        m = json.loads(ans)
+        if not m["wf"]:
+            ctx.disagree("rinex2 generated file does not satisfy NavFile.wf2 (generator outside the theorem's hypotheses)", case, "wf=false", "")
+        elif not m["thm"]:
+            ctx.disagree("rinex2 file_records_v2 instance: compiled accumV2 (render2 F) differs from expectedState", case, "thm=false", "")
+        lean_text = common.unhex(m["text"])
+        if lean_text != f["text"]:
+            la, lb = lean_text.split("\n"), f["text"].split("\n")
+            i = next((k for k, (x, y) in enumerate(zip(la, lb)) if x != y), -1)
+            ctx.disagree("rinex2 spec writer (Lean render2) vs independent writer (Python)", case, la[i] if i >= 0 else f"{len(la)} lines", lb[i] if i >= 0 else f"{len(lb)} lines")
+        a = "RAISES" if m["cols"] == "RAISES" else json.dumps(m["cols"])
     st, p, fn = impl.parse(parser, f["text"], f["ext"])
-    a = drv.ask1(f"c12 {parser} {f['ext'][-1]} {hexs(f['text'])}")
+    if a is None:
+        a = drv.ask1(f"c12 {parser} {f['ext'][-1]} {hexs(f['text'])}")
     if st == "raises":
         ctx.violate(f"raises:{p.split(':')[0]}", f"well-formed file makes {parser} raise {p}", case)
         if a != "RAISES":
@@ -528,14 +658,17 @@ def run(ctx: Ctx):
     quick = not ctx.thorough
     impl = Impl()
     ctx.rule = ("ephemeris models (epoch, toe within 2 h, transmission time up to 3 h earlier, 28 further values) for "
-                "G/E/C/J/I rendered by an independent writer in RINEX 3.04 (single-system and mixed files with "
-                "GLONASS/SBAS records in between) and 2.10/2.11/2.12 layouts; 19-column reals in D/E/e spellings, "
+                "G/E/C/J/I as abstract files (Spec/RinexNavFile.lean `NavFile`) rendered in RINEX 3.04 by the Lean spec writer AND by an independent Python writer "
+                "(texts must be equal), each checked against NavFile.wf and the compiled instance of file_records_v3 (single-system and mixed files with "
+                "GLONASS/SBAS records of 1..5 orbit lines at the start, in between, in a row and at the end; mixed files in which records of different systems incl. BeiDou share the printed epoch) "
+                "and rendered by the Python writer in 2.10/2.11/2.12 layouts; 19-column reals in D/E/e spellings, "
                 "with and without leading zero, negative values abutting the previous field, blank fields, lines cut "
                 "after the last value; half of the files have their epochs within 2 h of a GPS week boundary; "
                 "a case is non-trivial when the file has at least one supported record; distinct by file text")
     ctx.trusted += ["float(text) is compared with the correctly rounded double of the model's exact rational",
                     "midgard Time(gps_ws / datetime) constructors are taken as given (C02); instants compared to 1e-6 s",
-                    "dateutil.parser.parse / strptime on the ISO text built by the parser are modelled as the civil date"]
+                    "dateutil.parser.parse / strptime on the ISO text built by the parser are modelled as the civil date",
+                    "the driver's wire parser for abstract files (lean/Driver/C12.lean, namespace Wire); the Lean spec writers are compared byte for byte with the independent Python writer on every generated file"]
     ctx.assumptions += ["record epochs 1980-2035, whole seconds", "IODE integral for GPS/QZSS (the parser refuses CNAV)",
                         "header: only version / file type / satellite system enter the model"]
     try:
